@@ -264,7 +264,16 @@ func clip(s string) string {
 func drawHist(t *rapid.T) Hist {
 	h := Hist{Backend: rapid.SampledFrom([]string{"memory", "file"}).Draw(t, "backend")}
 	for i := rapid.IntRange(1, 6).Draw(t, "steps"); i > 0; i-- {
-		h.Steps = append(h.Steps, drawUpd(t))
+		u := drawUpd(t)
+		h.Steps = append(h.Steps, u)
+		// what an operator does after a failed save: send the same update again (now the disk is fine), or the
+		// same valid update twice in a row
+		if (u.FaultAt >= 0 || u.Class == "valid") && rapid.IntRange(0, 2).Draw(t, "again") == 0 {
+			again := u
+			again.FaultAt = -1
+			again.Class, again.Verdict = "valid", ref.Must
+			h.Steps = append(h.Steps, again)
+		}
 	}
 	return h
 }
